@@ -137,31 +137,266 @@ theorem reportKeys_filter_fresh (reported : List ChainKey) (ms : List TModel) :
 theorem assignReads_models (s : Store) (ins : List AssignIn) : (s.assignReads ins).models = s.models :=
   (assignReads_grow s ins).models
 
+/-! ### round `c04rep`: the dict `reported_novel_chains` and the loop that keeps the reads of a repeated chain -/
+
+theorem mem_chainKeys {m : ChainMap} {k : ChainKey} : k ∈ chainKeys m ↔ ∃ v, (k, v) ∈ m := by
+  simp [chainKeys]
+
+theorem chainKeys_amGet? {m : ChainMap} {k : ChainKey} : k ∈ chainKeys m ↔ ∃ v, amGet? m k = some v := by
+  constructor
+  · intro h
+    cases hg : amGet? m k with
+    | some v => exact ⟨v, rfl⟩
+    | none =>
+      obtain ⟨v, hv⟩ := mem_chainKeys.1 h
+      exact absurd rfl (amGet?_none hg _ hv)
+  · rintro ⟨v, hv⟩
+    exact mem_chainKeys.2 ⟨v, amGet?_mem hv⟩
+
+theorem amGet?_none_iff {m : ChainMap} {k : ChainKey} : amGet? m k = none ↔ k ∉ chainKeys m := by
+  rw [chainKeys_amGet?]
+  cases amGet? m k <;> simp
+
+theorem mem_chainKeys_amSet {m : ChainMap} {k x : ChainKey} {v : String} :
+    x ∈ chainKeys (amSet m k v) ↔ x ∈ chainKeys m ∨ x = k := by
+  constructor
+  · intro h
+    obtain ⟨w, hw⟩ := mem_chainKeys.1 h
+    rcases mem_amSet hw with h1 | h1
+    · exact Or.inr (by simpa using congrArg Prod.fst h1)
+    · exact Or.inl (mem_chainKeys.2 ⟨w, h1⟩)
+  · rintro (h | rfl)
+    · induction m with
+      | nil => simp [chainKeys] at h
+      | cons a t ih =>
+        obtain ⟨k', v'⟩ := a
+        simp only [amSet]
+        split
+        · rename_i hk
+          subst hk
+          simp only [chainKeys, List.map_cons, List.mem_cons] at h ⊢
+          exact h
+        · simp only [chainKeys, List.map_cons, List.mem_cons] at h ⊢
+          rcases h with h | h
+          · exact Or.inl h
+          · exact Or.inr (ih h)
+    · exact mem_chainKeys.2 ⟨v, mem_amSet_self m x v⟩
+
+theorem mem_chainKeys_foldl_amSet {ps m : ChainMap} {x : ChainKey} :
+    x ∈ chainKeys (ps.foldl (fun l p => amSet l p.1 p.2) m) ↔ x ∈ chainKeys m ∨ x ∈ chainKeys ps := by
+  induction ps generalizing m with
+  | nil => simp [chainKeys]
+  | cons a t ih =>
+    simp only [List.foldl_cons]
+    rw [ih, mem_chainKeys_amSet]
+    simp only [chainKeys, List.map_cons, List.mem_cons]
+    constructor
+    · rintro ((h | h) | h)
+      · exact Or.inl h
+      · exact Or.inr (Or.inl h)
+      · exact Or.inr (Or.inr h)
+    · rintro (h | h | h)
+      · exact Or.inl (Or.inl h)
+      · exact Or.inl (Or.inr h)
+      · exact Or.inr h
+
+theorem mem_chainKeys_insertNew {l : ChainMap} {p : ChainKey × String} {x : ChainKey} :
+    x ∈ chainKeys (mapInsertNew l p) ↔ x ∈ chainKeys l ∨ x = p.1 := by
+  unfold mapInsertNew
+  split
+  · rename_i h
+    constructor
+    · exact Or.inl
+    · rintro (h' | rfl)
+      · exact h'
+      · simp only [amHas, Option.isSome_iff_exists] at h
+        exact chainKeys_amGet?.2 h
+  · simp [chainKeys]
+
+theorem mem_chainKeys_foldl_insertNew {ps l : ChainMap} {x : ChainKey} :
+    x ∈ chainKeys (ps.foldl mapInsertNew l) ↔ x ∈ chainKeys l ∨ x ∈ chainKeys ps := by
+  induction ps generalizing l with
+  | nil => simp [chainKeys]
+  | cons a t ih =>
+    simp only [List.foldl_cons]
+    rw [ih, mem_chainKeys_insertNew]
+    simp only [chainKeys, List.map_cons, List.mem_cons]
+    constructor
+    · rintro ((h | h) | h)
+      · exact Or.inl h
+      · exact Or.inr (Or.inl h)
+      · exact Or.inr (Or.inr h)
+    · rintro (h | h | h)
+      · exact Or.inl (Or.inl h)
+      · exact Or.inl (Or.inr h)
+      · exact Or.inr h
+
+theorem chainKeys_reportPairs (ms : List TModel) : chainKeys (reportPairs ms) = reportKeys ms := by
+  simp [chainKeys, reportPairs, reportKeys, List.map_map, Function.comp_def]
+
+/-- the keys of `reported_novel_chains` after `update(own_chains)` -/
+theorem mem_chainKeys_mapUpdate {reported : ChainMap} {ms : List TModel} {x : ChainKey} :
+    x ∈ chainKeys (mapUpdate reported ms) ↔ x ∈ chainKeys reported ∨ x ∈ reportKeys ms := by
+  unfold mapUpdate
+  rw [mem_chainKeys_foldl_amSet, mem_chainKeys_foldl_insertNew, chainKeys_reportPairs]
+  simp [chainKeys]
+
+/-- every id the update stores is the id of a spliced novel model of the list, under that model's chain -/
+theorem mem_mapUpdate {reported : ChainMap} {ms : List TModel} {p : ChainKey × String} (h : p ∈ mapUpdate reported ms) :
+    p ∈ reported ∨ ∃ m ∈ ms, isSplicedNovel m = true ∧ chainKey m = p.1 ∧ m.tid = p.2 := by
+  unfold mapUpdate at h
+  have hown : ∀ (ps l : ChainMap) (q : ChainKey × String), q ∈ ps.foldl mapInsertNew l → q ∈ l ∨ q ∈ ps := by
+    intro ps
+    induction ps with
+    | nil => intro l q hq; exact Or.inl hq
+    | cons a t ih =>
+      intro l q hq
+      simp only [List.foldl_cons] at hq
+      rcases ih _ _ hq with h1 | h1
+      · unfold mapInsertNew at h1
+        split at h1
+        · exact Or.inl h1
+        · rcases List.mem_append.1 h1 with h2 | h2
+          · exact Or.inl h2
+          · simp at h2; exact Or.inr (by simp [h2])
+      · exact Or.inr (List.mem_cons_of_mem _ h1)
+  have hupd : ∀ (ps l : ChainMap) (q : ChainKey × String), q ∈ ps.foldl (fun l p => amSet l p.1 p.2) l → q ∈ l ∨ q ∈ ps := by
+    intro ps
+    induction ps with
+    | nil => intro l q hq; exact Or.inl hq
+    | cons a t ih =>
+      intro l q hq
+      simp only [List.foldl_cons] at hq
+      rcases ih _ _ hq with h1 | h1
+      · rcases mem_amSet h1 with h2 | h2
+        · exact Or.inr (by simp [h2])
+        · exact Or.inl h2
+      · exact Or.inr (List.mem_cons_of_mem _ h1)
+  rcases hupd _ _ _ h with h1 | h1
+  · exact Or.inl h1
+  · rcases hown _ _ _ h1 with h2 | h2
+    · simp at h2
+    · simp only [reportPairs, List.mem_map, List.mem_filter] at h2
+      obtain ⟨m, ⟨hm, hsn⟩, rfl⟩ := h2
+      exact Or.inr ⟨m, hm, hsn, rfl, rfl⟩
+
+/-- which models are DUMPED does not depend on the bookkeeping: the list filter of fix b2b4dd9 -/
+theorem dropLoopR_final (reported : ChainMap) (ms : List TModel) (s : Store) (seen : List ChainKey)
+    (kept : List (Bool × TModel)) (s' : Store) (kept' : List (Bool × TModel))
+    (h : dropLoopR reported ms s seen kept = some (s', kept')) :
+    finalModels kept' = finalModels kept ++ ms.filter (keepModel (chainKeys reported)) := by
+  induction ms generalizing s seen kept with
+  | nil =>
+    simp only [dropLoopR, Option.some.injEq, Prod.mk.injEq] at h
+    simp [h.2]
+  | cons m t ih =>
+    simp only [dropLoopR] at h
+    cases hsn : isSplicedNovel m with
+    | false =>
+      simp only [hsn, Bool.false_eq_true, if_false] at h
+      rw [ih _ _ _ h]
+      simp [finalModels, keepModel, hsn]
+    | true =>
+      simp only [hsn, if_true] at h
+      cases hg : amGet? reported (chainKey m) with
+      | none =>
+        simp only [hg] at h
+        rw [ih _ _ _ h]
+        have : chainKey m ∉ chainKeys reported := amGet?_none_iff.1 hg
+        simp [finalModels, keepModel, hsn, this]
+      | some first =>
+        simp only [hg] at h
+        have hin : chainKey m ∈ chainKeys reported := chainKeys_amGet?.2 ⟨first, hg⟩
+        split at h
+        · split at h
+          · simp at h
+          · rw [ih _ _ _ h]
+            simp [keepModel, hsn, hin]
+        · split at h
+          · simp at h
+          · rw [ih _ _ _ h]
+            simp [finalModels, keepModel, hsn, hin]
+
+/-- when no chain is repeated the loop changes nothing -/
+theorem dropLoopR_all_kept (reported : ChainMap) (ms : List TModel) (s : Store) (seen : List ChainKey)
+    (kept : List (Bool × TModel)) (hall : ∀ m ∈ ms, keepModel (chainKeys reported) m = true) :
+    dropLoopR reported ms s seen kept = some (s, kept ++ ms.map (fun m => (false, m))) := by
+  induction ms generalizing kept with
+  | nil => simp [dropLoopR]
+  | cons m t ih =>
+    have hm := hall m (by simp)
+    unfold keepModel at hm
+    simp only [dropLoopR]
+    cases hsn : isSplicedNovel m with
+    | false =>
+      simp only [Bool.false_eq_true, if_false]
+      rw [ih _ (fun x hx => hall x (by simp [hx]))]
+      simp
+    | true =>
+      simp only [hsn, Bool.true_and, Bool.not_eq_true', decide_eq_false_iff_not] at hm
+      simp only [if_true, amGet?_none_iff.2 hm]
+      rw [ih _ (fun x hx => hall x (by simp [hx]))]
+      simp
+
+/-- the current `drop_novel_chains_reported_elsewhere`: the dumped models and the new dict -/
+theorem dropKeep_spec {s s6 : Store} {reported rep' : ChainMap} {final : List TModel}
+    (h : s.dropKeep reported = some (s6, final, rep')) :
+    final = s.models.filter (keepModel (chainKeys reported)) ∧ rep' = mapUpdate reported final := by
+  unfold Store.dropKeep at h
+  split at h
+  · simp at h
+  · rename_i s1 kept hl
+    simp only [Option.some.injEq, Prod.mk.injEq] at h
+    obtain ⟨_, rfl, rfl⟩ := h
+    have := dropLoopR_final _ _ _ _ _ _ _ hl
+    simp only [finalModels, List.filter_nil, List.map_nil, List.nil_append] at this
+    exact ⟨this, rfl⟩
+
 /-! ### the tail of `process()` -/
 
-/-- what the dumped storage of a repaired constructor holds and what it hands on -/
-theorem regionTail_fixed_spec {reported rep' : List ChainKey} {r : RegionIn} {s5 s : Store}
-    (h : regionTail true reported r s5 = some (s, rep')) :
-    reportKeys s.models = reportKeys (s5.models.filter (keepModel reported)) ∧
-    rep' = keyUnion reported (reportKeys s.models) ∧
-    s.models = (s5.models.filter (keepModel reported)).map (fun m => { m with gene := r.newGene m }) := by
+/-- what the dumped storage of a current constructor holds and what it hands on -/
+theorem regionTail_fixed_spec {reported rep' : ChainMap} {r : RegionIn} {s5 s : Store}
+    (h : regionTail .keepReads reported r s5 = some (s, rep')) :
+    reportKeys s.models = reportKeys (s5.models.filter (keepModel (chainKeys reported))) ∧
+    (∀ k, k ∈ chainKeys rep' ↔ k ∈ chainKeys reported ∨ k ∈ reportKeys s.models) ∧
+    s.models = (s5.models.filter (keepModel (chainKeys reported))).map (fun m => { m with gene := r.newGene m }) ∧
+    rep' = mapUpdate reported (s5.models.filter (keepModel (chainKeys reported))) := by
   unfold regionTail at h
-  simp only [if_true] at h
+  simp only at h
+  split at h
+  · simp at h
+  · rename_i s6 final rep hd
+    simp only [Option.some.injEq, Prod.mk.injEq] at h
+    obtain ⟨rfl, rfl⟩ := h
+    obtain ⟨hf, hr⟩ := dropKeep_spec hd
+    subst hf
+    refine ⟨reportKeys_map_gene _ _, ?_, rfl, hr⟩
+    intro k
+    rw [hr, mem_chainKeys_mapUpdate]
+    simp only [reportKeys_map_gene]
+
+/-- the code of fix b2b4dd9 dumps the same models and hands on the same keys -/
+theorem regionTail_b2b4_spec {reported rep' : ChainMap} {r : RegionIn} {s5 s : Store}
+    (h : regionTail .dropOnly reported r s5 = some (s, rep')) :
+    s.models = (s5.models.filter (keepModel (chainKeys reported))).map (fun m => { m with gene := r.newGene m }) ∧
+    rep' = mapUpdate reported (s5.models.filter (keepModel (chainKeys reported))) := by
+  unfold regionTail at h
+  simp only at h
   split at h
   · simp at h
   · rename_i s6 rep hd
     simp only [Option.some.injEq, Prod.mk.injEq] at h
     obtain ⟨rfl, rfl⟩ := h
-    obtain ⟨hm, hr, _⟩ := dropReported_spec hd
-    simp only [assignReads_models, reportKeys_map_gene]
-    rw [hm] at hr ⊢
-    exact ⟨rfl, hr, rfl⟩
+    obtain ⟨hm, _, _⟩ := dropReported_spec hd
+    simp only [assignReads_models]
+    rw [hm]
+    exact ⟨rfl, rfl⟩
 
-theorem regionTail_orig_spec {reported rep' : List ChainKey} {r : RegionIn} {s5 s : Store}
-    (h : regionTail false reported r s5 = some (s, rep')) :
+theorem regionTail_orig_spec {reported rep' : ChainMap} {r : RegionIn} {s5 s : Store}
+    (h : regionTail .none reported r s5 = some (s, rep')) :
     rep' = reported ∧ s.models = s5.models.map (fun m => { m with gene := r.newGene m }) := by
   unfold regionTail at h
-  simp only [Bool.false_eq_true, if_false, Option.some.injEq, Prod.mk.injEq] at h
+  simp only [Option.some.injEq, Prod.mk.injEq] at h
   obtain ⟨rfl, rfl⟩ := h
   simp [assignReads_models]
 
@@ -174,7 +409,7 @@ theorem chrKeys_single (s : Store) : chrKeys [s] = reportKeys s.models := by
   simp [chrKeys]
 
 /-- the reports already made are a prefix of the final list -/
-theorem runChromosome_prefix (rp : Bool) (next : Nat → Nat) (regs : List RegionIn) (cs : ChrState) (acc : List Store)
+theorem runChromosome_prefix (rp : Repair) (next : Nat → Nat) (regs : List RegionIn) (cs : ChrState) (acc : List Store)
     (cs' : ChrState) (reps : List Store) (h : runChromosome rp next regs cs acc = some (cs', reps)) :
     ∃ new, reps = acc ++ new ∧ new.length = regs.length := by
   induction regs generalizing cs acc with
@@ -189,10 +424,13 @@ theorem runChromosome_prefix (rp : Bool) (next : Nat → Nat) (regs : List Regio
       obtain ⟨new, hn, hl⟩ := ih _ _ h
       exact ⟨s :: new, by simp [hn], by simp [hl]⟩
 
-/-- one repaired constructor: its keys are new, and the set it hands on is the old one plus its keys -/
+/-- one current constructor: its keys are new, the dict it hands on has the old keys plus its keys, and every new entry is
+    (chain, id) of a model it dumps -/
 theorem processRegion_fixed_keys {next : Nat → Nat} {cs cs' : ChrState} {r : RegionIn} {s : Store}
-    (h : processRegion true next cs r = some (cs', s)) :
-    (∀ k ∈ reportKeys s.models, k ∉ cs.reported) ∧ cs'.reported = keyUnion cs.reported (reportKeys s.models) := by
+    (h : processRegion .keepReads next cs r = some (cs', s)) :
+    (∀ k ∈ reportKeys s.models, k ∉ chainKeys cs.reported) ∧
+    (∀ k, k ∈ chainKeys cs'.reported ↔ k ∈ chainKeys cs.reported ∨ k ∈ reportKeys s.models) ∧
+    (∀ p ∈ cs'.reported, p ∈ cs.reported ∨ ∃ m ∈ s.models, isSplicedNovel m = true ∧ chainKey m = p.1 ∧ m.tid = p.2) := by
   unfold processRegion at h
   split at h
   · simp at h
@@ -202,41 +440,303 @@ theorem processRegion_fixed_keys {next : Nat → Nat} {cs cs' : ChrState} {r : R
     · rename_i s0 rep ht
       simp only [Option.some.injEq, Prod.mk.injEq] at h
       obtain ⟨rfl, rfl⟩ := h
-      obtain ⟨hk, hr, _⟩ := regionTail_fixed_spec ht
-      refine ⟨?_, hr⟩
-      rw [hk]
-      exact reportKeys_filter_fresh _ _
+      obtain ⟨hk, hr, hms, hrep⟩ := regionTail_fixed_spec ht
+      refine ⟨?_, hr, ?_⟩
+      · rw [hk]
+        exact reportKeys_filter_fresh _ _
+      · intro p hp
+        simp only at hp
+        rw [hrep] at hp
+        rcases mem_mapUpdate hp with h1 | ⟨m, hm, hsn, hck, htid⟩
+        · exact Or.inl h1
+        · refine Or.inr ⟨{ m with gene := r.newGene m }, ?_, hsn, hck, htid⟩
+          rw [hms]
+          exact List.mem_map.2 ⟨m, hm, rfl⟩
 
-/-- the invariant of the repaired loop: the class-level set is exactly the set of keys reported so far, and no key was
-    reported by two constructors -/
+/-- the invariant of the current loop: the keys of the class-level dict are exactly the keys reported so far, every entry names
+    a model that IS in the output with that chain, and no key was reported by two constructors -/
 theorem runChromosome_fixed_inv (next : Nat → Nat) (regs : List RegionIn) (cs : ChrState) (acc : List Store)
-    (cs' : ChrState) (reps : List Store) (h : runChromosome true next regs cs acc = some (cs', reps))
-    (hsub : ∀ k, k ∈ cs.reported ↔ k ∈ chrKeys acc) :
-    (∀ k, k ∈ cs'.reported ↔ k ∈ chrKeys reps) ∧
+    (cs' : ChrState) (reps : List Store) (h : runChromosome .keepReads next regs cs acc = some (cs', reps))
+    (hsub : ∀ k, k ∈ chainKeys cs.reported ↔ k ∈ chrKeys acc)
+    (hids : ∀ p ∈ cs.reported, ∃ s ∈ acc, ∃ m ∈ s.models, isSplicedNovel m = true ∧ chainKey m = p.1 ∧ m.tid = p.2) :
+    (∀ k, k ∈ chainKeys cs'.reported ↔ k ∈ chrKeys reps) ∧
+    (∀ p ∈ cs'.reported, ∃ s ∈ reps, ∃ m ∈ s.models, isSplicedNovel m = true ∧ chainKey m = p.1 ∧ m.tid = p.2) ∧
     ((chrKeys acc).Nodup → (∀ s ∈ reps, (reportKeys s.models).Nodup) → (chrKeys reps).Nodup) := by
   induction regs generalizing cs acc with
   | nil =>
     simp only [runChromosome, Option.some.injEq, Prod.mk.injEq] at h
     obtain ⟨rfl, rfl⟩ := h
-    exact ⟨hsub, fun hn _ => hn⟩
+    exact ⟨hsub, hids, fun hn _ => hn⟩
   | cons r t ih =>
     simp only [runChromosome] at h
     split at h
     · simp at h
     · rename_i cs1 s hp
-      obtain ⟨hfresh, hrep⟩ := processRegion_fixed_keys hp
-      have hsub1 : ∀ k, k ∈ cs1.reported ↔ k ∈ chrKeys (acc ++ [s]) := by
+      obtain ⟨hfresh, hrep, hnew⟩ := processRegion_fixed_keys hp
+      have hsub1 : ∀ k, k ∈ chainKeys cs1.reported ↔ k ∈ chrKeys (acc ++ [s]) := by
         intro k
-        rw [hrep, mem_keyUnion, chrKeys_append, chrKeys_single, List.mem_append, hsub k]
-      obtain ⟨h1, h2⟩ := ih _ _ h hsub1
-      refine ⟨h1, fun hn hper => h2 ?_ hper⟩
+        rw [hrep, chrKeys_append, chrKeys_single, List.mem_append, hsub k]
+      have hids1 : ∀ p ∈ cs1.reported, ∃ s' ∈ acc ++ [s], ∃ m ∈ s'.models,
+          isSplicedNovel m = true ∧ chainKey m = p.1 ∧ m.tid = p.2 := by
+        intro p hp'
+        rcases hnew p hp' with h1 | ⟨m, hm, hx⟩
+        · obtain ⟨s', hs', hx⟩ := hids p h1
+          exact ⟨s', by simp [hs'], hx⟩
+        · exact ⟨s, by simp, m, hm, hx⟩
+      obtain ⟨h1, h1b, h2⟩ := ih _ _ h hsub1 hids1
+      refine ⟨h1, h1b, fun hn hper => h2 ?_ hper⟩
       rw [chrKeys_append, chrKeys_single]
-      obtain ⟨new, hnew, _⟩ := runChromosome_prefix _ _ _ _ _ _ _ h
-      have hs : s ∈ reps := by rw [hnew]; simp
+      obtain ⟨new, hnew', _⟩ := runChromosome_prefix _ _ _ _ _ _ _ h
+      have hs : s ∈ reps := by rw [hnew']; simp
       rw [List.nodup_append]
       refine ⟨hn, hper s hs, ?_⟩
       intro a ha b hb hab
       subst hab
       exact hfresh a hb ((hsub a).2 ha)
+
+/-! ### round `c04rep`: what the renaming step does to the bookkeeping -/
+
+/-- `transcript_read_ids[n] = transcript_read_ids.pop(o)`, `internal_counter[n] = internal_counter.pop(o)`:
+    `read_assignment_counts` is NOT touched (fix b2b4dd9 went through `delete_from_storage`, which decrements it) -/
+theorem renameTid_spec {s s' : Store} {o n : String} (h : s.renameTid o n = some s') :
+    s'.models = s.models ∧ s'.rcount = s.rcount ∧
+    (∀ t, cnt s'.counter t = if t = n then cnt s.counter o else if t = o then 0 else cnt s.counter t) ∧
+    (∀ t, readsIn s'.readIds t = if t = n then readsIn s.readIds o else if t = o then [] else readsIn s.readIds t) := by
+  unfold Store.renameTid at h
+  split at h
+  · simp only [Option.some.injEq] at h
+    subst h
+    refine ⟨rfl, rfl, fun t => ?_, fun t => ?_⟩
+    · simp only [cnt_amSet, cnt_amErase]
+    · simp only [readsIn_amSet, readsIn_amErase, readsOf_eq]
+  · simp at h
+
+theorem renameTid_counterLe {s s' : Store} {o n : String} (hc : CounterLe s) (h : s.renameTid o n = some s') :
+    CounterLe s' := by
+  obtain ⟨_, _, h1, h2⟩ := renameTid_spec h
+  intro t
+  rw [h1, h2]
+  split
+  · exact hc o
+  · split
+    · simp
+    · exact hc t
+
+theorem eq_of_nodup_ids {ms : List TModel} (hnd : (ids ms).Nodup) {a b : TModel} (ha : a ∈ ms) (hb : b ∈ ms)
+    (h : a.tid = b.tid) : a = b := by
+  induction ms with
+  | nil => simp at ha
+  | cons x t ih =>
+    simp only [ids, List.map_cons, List.nodup_cons, List.mem_map, not_exists, not_and] at hnd
+    simp only [List.mem_cons] at ha hb
+    rcases ha with rfl | ha <;> rcases hb with rfl | hb
+    · rfl
+    · exact absurd h.symm (hnd.1 b hb)
+    · exact absurd h (hnd.1 a ha)
+    · exact ih hnd.2 ha hb
+
+/-- the loop keeps `internal_counter[t] ≤ |transcript_read_ids[t]|` -/
+theorem dropLoopR_counterLe (reported : ChainMap) (ms : List TModel) (s : Store) (seen : List ChainKey)
+    (kept : List (Bool × TModel)) (s' : Store) (kept' : List (Bool × TModel))
+    (h : dropLoopR reported ms s seen kept = some (s', kept')) (hc : CounterLe s) : CounterLe s' := by
+  induction ms generalizing s seen kept with
+  | nil =>
+    simp only [dropLoopR, Option.some.injEq, Prod.mk.injEq] at h
+    rw [← h.1]; exact hc
+  | cons m t ih =>
+    simp only [dropLoopR] at h
+    split at h
+    · split at h
+      · exact ih _ _ _ h hc
+      · split at h
+        · split at h
+          · simp at h
+          · rename_i s1 hd
+            exact ih _ _ _ h (deleteFromStorage_counterLe hc hd)
+        · split at h
+          · simp at h
+          · rename_i s1 hr
+            exact ih _ _ _ h (renameTid_counterLe hc hr)
+    · exact ih _ _ _ h hc
+
+/-- frame: a transcript id none of whose models is a repeated copy, and which no renaming of the loop writes to, keeps its
+    counter and its read list through the loop -/
+theorem dropLoopR_frameG (reported : ChainMap) (tid : String)
+    (ms : List TModel) (s : Store) (seen : List ChainKey)
+    (kept : List (Bool × TModel)) (s' : Store) (kept' : List (Bool × TModel))
+    (h : dropLoopR reported ms s seen kept = some (s', kept'))
+    (hnew : ∀ m ∈ ms, isSplicedNovel m = true → amGet? reported (chainKey m) ≠ some tid)
+    (hkeep : ∀ m ∈ ms, m.tid = tid → keepModel (chainKeys reported) m = true) :
+    cnt s'.counter tid = cnt s.counter tid ∧ readsIn s'.readIds tid = readsIn s.readIds tid := by
+  induction ms generalizing s seen kept with
+  | nil =>
+    simp only [dropLoopR, Option.some.injEq, Prod.mk.injEq] at h
+    rw [← h.1]; exact ⟨rfl, rfl⟩
+  | cons m t ih =>
+    have hrest : ∀ x ∈ t, x.tid = tid → keepModel (chainKeys reported) x = true :=
+      fun x hx => hkeep x (List.mem_cons_of_mem _ hx)
+    have hnrest : ∀ x ∈ t, isSplicedNovel x = true → amGet? reported (chainKey x) ≠ some tid :=
+      fun x hx => hnew x (List.mem_cons_of_mem _ hx)
+    simp only [dropLoopR] at h
+    split at h
+    · rename_i hsn
+      split at h
+      · exact ih _ _ _ h hnrest hrest
+      · rename_i first hg
+        have hin : chainKey m ∈ chainKeys reported := chainKeys_amGet?.2 ⟨first, hg⟩
+        have hne : m.tid ≠ tid := by
+          intro heq
+          have := hkeep m (by simp) heq
+          simp [keepModel, hsn, hin] at this
+        have hf : first ≠ tid := by
+          intro heq
+          exact hnew m (by simp) hsn (by rw [hg, heq])
+        split at h
+        · split at h
+          · simp at h
+          · rename_i s1 hd
+            obtain ⟨_, h1, h2, _⟩ := deleteFromStorage_spec hd
+            obtain ⟨i1, i2⟩ := ih _ _ _ h hnrest hrest
+            rw [i1, i2, h1, h2]
+            simp [Ne.symm hne]
+        · split at h
+          · simp at h
+          · rename_i s1 hr
+            obtain ⟨_, _, h1, h2⟩ := renameTid_spec hr
+            obtain ⟨i1, i2⟩ := ih _ _ _ h hnrest hrest
+            rw [i1, i2, h1, h2]
+            simp [Ne.symm hne, Ne.symm hf]
+    · exact ih _ _ _ h hnrest hrest
+
+/-- … in particular an id that is not the id of any model reported first -/
+theorem dropLoopR_frame (reported : ChainMap) (tid : String) (hfirst : ∀ p ∈ reported, p.2 ≠ tid)
+    (ms : List TModel) (s : Store) (seen : List ChainKey)
+    (kept : List (Bool × TModel)) (s' : Store) (kept' : List (Bool × TModel))
+    (h : dropLoopR reported ms s seen kept = some (s', kept'))
+    (hkeep : ∀ m ∈ ms, m.tid = tid → keepModel (chainKeys reported) m = true) :
+    cnt s'.counter tid = cnt s.counter tid ∧ readsIn s'.readIds tid = readsIn s.readIds tid :=
+  dropLoopR_frameG reported tid ms s seen kept s' kept' h
+    (fun m _ _ hg => hfirst (chainKey m, tid) (amGet?_mem hg) rfl) hkeep
+
+/-- the reads of a repeated chain: if the constructor holds no chain twice and ids are what the shared distributor makes them
+    (distinct in the storage, the ids in the dict not among them, different chains under different ids), then after the loop
+    the id of the model reported first carries exactly the read list and the counter the local copy had -/
+theorem dropLoopR_moves_reads (reported : ChainMap)
+    (hinj : ∀ p ∈ reported, ∀ q ∈ reported, p.2 = q.2 → p.1 = q.1)
+    (m : TModel) (first : String) (hsn : isSplicedNovel m = true) (hg : amGet? reported (chainKey m) = some first)
+    (ms : List TModel) (s : Store) (seen : List ChainKey)
+    (kept : List (Bool × TModel)) (s' : Store) (kept' : List (Bool × TModel))
+    (h : dropLoopR reported ms s seen kept = some (s', kept'))
+    (hm : m ∈ ms) (hnd : (ids ms).Nodup) (hkeys : (reportKeys ms).Nodup) (hseen : ∀ k ∈ reportKeys ms, k ∉ seen)
+    (hfirst : ∀ p ∈ reported, p.2 ∉ ids ms) :
+    cnt s'.counter first = cnt s.counter m.tid ∧ readsIn s'.readIds first = readsIn s.readIds m.tid := by
+  induction ms generalizing s seen kept with
+  | nil => simp at hm
+  | cons x t ih =>
+    have hndt : (ids t).Nodup := by
+      simp only [ids, List.map_cons, List.nodup_cons] at hnd; exact hnd.2
+    have hfirstt : ∀ p ∈ reported, p.2 ∉ ids t := by
+      intro p hp hin
+      exact hfirst p hp (by simp only [ids, List.map_cons, List.mem_cons]; exact Or.inr hin)
+    by_cases hxm : x = m
+    · -- the step of `m` itself renames; nothing after it touches `first`
+      subst hxm
+      have hk : reportKeys (x :: t) = chainKey x :: reportKeys t := by simp [reportKeys, hsn]
+      rw [hk] at hkeys hseen
+      simp only [List.nodup_cons] at hkeys
+      have hns : chainKey x ∉ seen := hseen _ (by simp)
+      simp only [dropLoopR, hsn, if_true, hg, hns, if_false] at h
+      split at h
+      · simp at h
+      · rename_i s1 hr
+        obtain ⟨_, _, h1, h2⟩ := renameTid_spec hr
+        have hfr := dropLoopR_frameG reported first t s1 _ _ s' kept' h ?_ ?_
+        · rw [hfr.1, hfr.2, h1, h2]; simp
+        · intro y hy hysn hyg
+          have : chainKey y = chainKey x :=
+            hinj (chainKey y, first) (amGet?_mem hyg) (chainKey x, first) (amGet?_mem hg) rfl
+          exact hkeys.1 (this ▸ mem_reportKeys.2 ⟨y, hy, hysn, rfl⟩)
+        · intro y hy hyt
+          exact absurd (by simp only [ids, List.map_cons, List.mem_cons]; exact Or.inr (List.mem_map.2 ⟨y, hy, hyt⟩))
+            (hfirst (chainKey x, first) (amGet?_mem hg))
+    · have hmt : m ∈ t := by
+        rcases List.mem_cons.1 hm with h1 | h1
+        · exact absurd h1.symm hxm
+        · exact h1
+      have hxt : x.tid ≠ m.tid := by
+        intro heq
+        exact hxm (eq_of_nodup_ids hnd (by simp) hm heq)
+      have hmid : m.tid ∈ ids (x :: t) := List.mem_map.2 ⟨m, hm, rfl⟩
+      simp only [dropLoopR] at h
+      cases hxsn : isSplicedNovel x with
+      | false =>
+        have hk : reportKeys (x :: t) = reportKeys t := by simp [reportKeys, hxsn]
+        rw [hk] at hkeys hseen
+        simp only [hxsn, Bool.false_eq_true, if_false] at h
+        exact ih _ _ _ h hmt hndt hkeys hseen hfirstt
+      | true =>
+        have hk : reportKeys (x :: t) = chainKey x :: reportKeys t := by simp [reportKeys, hxsn]
+        rw [hk] at hkeys hseen
+        simp only [List.nodup_cons] at hkeys
+        simp only [hxsn, if_true] at h
+        split at h
+        · exact ih _ _ _ h hmt hndt hkeys.2 (fun k hk' => hseen k (List.mem_cons_of_mem _ hk')) hfirstt
+        · rename_i fx hgx
+          have hns : chainKey x ∉ seen := hseen _ (by simp)
+          simp only [hns, if_false] at h
+          split at h
+          · simp at h
+          · rename_i s1 hr
+            obtain ⟨_, _, h1, h2⟩ := renameTid_spec hr
+            have hfx : fx ≠ m.tid := fun heq => hfirst (chainKey x, fx) (amGet?_mem hgx) (heq ▸ hmid)
+            have := ih _ _ _ h hmt hndt hkeys.2 (by
+              intro k hk' hmem
+              rcases List.mem_append.1 hmem with h3 | h3
+              · exact hseen k (List.mem_cons_of_mem _ hk') h3
+              · simp only [List.mem_singleton] at h3
+                subst h3
+                exact hkeys.1 hk') hfirstt
+            rw [this.1, this.2, h1, h2]
+            simp [Ne.symm hfx, Ne.symm hxt]
+
+/-- when the constructor holds no chain twice, `read_assignment_counts` leaves the loop as it entered it: no listed read is
+    turned into a `*` line by the step (fix b2b4dd9 decremented the count of every read of the repeated model) -/
+theorem dropLoopR_rcount (reported : ChainMap) (ms : List TModel) (s : Store) (seen : List ChainKey)
+    (kept : List (Bool × TModel)) (s' : Store) (kept' : List (Bool × TModel))
+    (h : dropLoopR reported ms s seen kept = some (s', kept'))
+    (hnd : (reportKeys ms).Nodup) (hseen : ∀ k ∈ reportKeys ms, k ∉ seen) : s'.rcount = s.rcount := by
+  induction ms generalizing s seen kept with
+  | nil =>
+    simp only [dropLoopR, Option.some.injEq, Prod.mk.injEq] at h
+    rw [← h.1]
+  | cons m t ih =>
+    simp only [dropLoopR] at h
+    cases hsn : isSplicedNovel m with
+    | false =>
+      have hk : reportKeys (m :: t) = reportKeys t := by simp [reportKeys, hsn]
+      rw [hk] at hnd hseen
+      simp only [hsn, Bool.false_eq_true, if_false] at h
+      exact ih _ _ _ h hnd hseen
+    | true =>
+      have hk : reportKeys (m :: t) = chainKey m :: reportKeys t := by simp [reportKeys, hsn]
+      rw [hk] at hnd hseen
+      simp only [List.nodup_cons] at hnd
+      simp only [hsn, if_true] at h
+      split at h
+      · exact ih _ _ _ h hnd.2 (fun k hk' => hseen k (List.mem_cons_of_mem _ hk'))
+      · have hns : chainKey m ∉ seen := hseen _ (by simp)
+        simp only [hns, if_false] at h
+        split at h
+        · simp at h
+        · rename_i s1 hr
+          obtain ⟨_, hrc, _, _⟩ := renameTid_spec hr
+          rw [← hrc]
+          refine ih _ _ _ h hnd.2 ?_
+          intro k hk' hmem
+          rcases List.mem_append.1 hmem with h1 | h1
+          · exact hseen k (List.mem_cons_of_mem _ hk') h1
+          · simp only [List.mem_singleton] at h1
+            subst h1
+            exact hnd.1 hk'
 
 end IsoVerif.Lemmas.C04
